@@ -409,10 +409,18 @@ class Enumerator:
                         yield e3, oc3
 
     def _for(self, st, evs, hctx, i):
-        # exhausted after i iterations
-        yield from self._block(st.orelse, evs + (Ev("iter", st, "exit%d" % i),), hctx)
-        if i >= self.unroll:
-            return
+        # a literal tuple / list has a known number of iterations: no early exhaustion, unrolled completely (up to 8)
+        exact = len(st.iter.elts) if isinstance(st.iter, (ast.Tuple, ast.List)) and len(st.iter.elts) <= 8 \
+            and not any(isinstance(e, ast.Starred) for e in st.iter.elts) and isinstance(st, ast.For) else None
+        if exact is not None:
+            if i == exact:
+                yield from self._block(st.orelse, evs + (Ev("iter", st, "exit%d" % i),), hctx)
+                return
+        else:
+            # exhausted after i iterations
+            yield from self._block(st.orelse, evs + (Ev("iter", st, "exit%d" % i),), hctx)
+            if i >= self.unroll:
+                return
         e2 = evs + (Ev("iter", st, i),)
         for e3, oc3 in self._block(st.body, e2, hctx):
             if oc3[0] in ("fall", "continue"):
